@@ -17,6 +17,7 @@ from . import c01
 
 ID = "C10"
 BUDGET = {"quick": 12000, "thorough": 160000}
+FUZZ = {"thorough": 4000}  # coverage-guided stage: libFuzzer runs per worker (x16), see vk/fuzz.py
 DETERMINISTIC_RULES = ["STV", "IRV", "SequentialRCV", "Plurality", "SNTV", "Borda", "TopTwo", "Alaska",
                        "DominatingSets", "CondoBorda", "Rating", "Limited", "Cumulative", "Approval",
                        "BlocPlurality"]
